@@ -54,7 +54,7 @@ type Arg struct {
 
 // ExprHash returns a unique identifier for an Expr.
 func ExprHash(fset *token.FileSet, n ast.Expr) string {
-	pos := fset.Position(n.Pos())
+	pos := fset.PositionFor(n.Pos(), false /* adjusted */)
 	return fmt.Sprintf("m%v%d_%d", TrimFilename(pos.Filename), pos.Line, pos.Column)
 }
 
